@@ -22,7 +22,7 @@ func (c22) Budget(tier string) int {
 	if tier == "thorough" {
 		return 20000
 	}
-	return 400
+	return 4000
 }
 
 func (c22) Describe() engine.Info {
